@@ -1198,6 +1198,10 @@ void KFoldCV(MODELINPUT *input,
     /*Finalize the output by dividing for the number of times that the object was predicted*/
 
     if(predicted_y != NULL){
+      /* size the caller's matrix in place: MatrixCopy would replace the local
+       * pointer (and free the caller's matrix) when the shapes differ
+       */
+      ResizeMatrix(predicted_y, y_predicted->row, y_predicted->col);
       MatrixCopy(y_predicted, &predicted_y);
     }
 
